@@ -69,7 +69,11 @@ func newCheckRunner(msgMeta *module.MsgMetadata, log log.Logger, r dns.Resolver)
 	}
 }
 
-func (cr *checkRunner) checkStates(ctx context.Context, checks []module.Check) ([]module.CheckState, error) {
+// checkStates returns the state objects for checks, creating missing ones.
+//
+// curRcpt is the recipient being handled by the caller (empty if none), it is
+// used to tell apart the results of the replayed CheckRcpt calls.
+func (cr *checkRunner) checkStates(ctx context.Context, checks []module.Check, curRcpt string) ([]module.CheckState, error) {
 	states := make([]module.CheckState, 0, len(checks))
 	newStates := make([]module.CheckState, 0, len(checks))
 	newStatesMap := make(map[module.Check]module.CheckState, len(checks))
@@ -145,6 +149,13 @@ func (cr *checkRunner) checkStates(ctx context.Context, checks []module.Check) (
 				return res
 			})
 			if err != nil {
+				if rcpt != curRcpt {
+					// That recipient was already answered. A state created
+					// later does not get to fail a different recipient (or the
+					// message body) with that answer.
+					cr.log.Error("check rejected an already handled recipient", err, "rcpt", rcpt)
+					continue
+				}
 				closeStates()
 				return nil, err
 			}
@@ -243,12 +254,12 @@ func (cr *checkRunner) checkConnSender(ctx context.Context, checks []module.Chec
 	cr.mailFromReceived = true
 
 	// checkStates will run CheckConnection and CheckSender.
-	_, err := cr.checkStates(ctx, checks)
+	_, err := cr.checkStates(ctx, checks, "")
 	return err
 }
 
 func (cr *checkRunner) checkRcpt(ctx context.Context, checks []module.Check, rcptTo string) error {
-	states, err := cr.checkStates(ctx, checks)
+	states, err := cr.checkStates(ctx, checks, rcptTo)
 	if err != nil {
 		return err
 	}
@@ -274,7 +285,7 @@ func (cr *checkRunner) checkRcpt(ctx context.Context, checks []module.Check, rcp
 }
 
 func (cr *checkRunner) checkBody(ctx context.Context, checks []module.Check, header textproto.Header, body buffer.Buffer) error {
-	states, err := cr.checkStates(ctx, checks)
+	states, err := cr.checkStates(ctx, checks, "")
 	if err != nil {
 		return err
 	}
